@@ -10,6 +10,7 @@ type StackN<const N: usize, const S: usize> = any_vec::mem::StackN<N, S>;
 
 #[cfg(feature = "lib_alloc")]
 anyvec_pbt::configs! {
+    Tr4a1_Multi:  Tr4a1,  Multi, dyn Cloneable, G_LAYOUT;
     Tr0a16_StackA: Tr0a16, Stack<16>,       dyn Cloneable, G_ALIGN;
     Tr16_StackA:   Tr16,   Stack<64>,       dyn Cloneable, G_ALIGN;
     Tr0_Multi:    Tr0,    Multi, dyn Cloneable, G_LAYOUT | G_FAULT;
